@@ -23,6 +23,7 @@ Inductive digest :=
 | DLeaf (r : N)                (* a sector root used as a leaf of the meta tree *)
 | DNode (l r : digest).        (* blake2b.SumPair *)
 
+(** decidable equality of digests: a decision procedure (a definition written with tactics) *)
 Lemma digest_eq_dec (a b : digest) : {a = b} + {a ≠ b}.
 Proof. decide equality; apply N.eq_dec. Defined.
 Global Instance digest_eqdec : EqDecision digest := digest_eq_dec.
@@ -57,6 +58,60 @@ Fixpoint leaves (d : digest) : list N :=
   | DEmpty => []
   | DLeaf x => [x]
   | DNode l r => leaves l ++ leaves r
+  end.
+
+(** ** Symbolic sector-range proofs (rhp2.BuildSectorRangeProof / VerifySectorRangeProof)
+
+    A proof for the leaves [off, off+len) of a tree of [n] leaves is one digest for every
+    maximal subtree that is disjoint from the range, left to right. [rebuild] reconstructs
+    the root from the claimed leaves [rs] and the proof, consuming both left to right; it
+    returns what is left of each. [f] is fuel ([n] suffices). *)
+Fixpoint rebuild (f n off len : nat) (rs : list N) (proof : list digest)
+    : option (digest * list N * list digest) :=
+  match f with
+  | 0 => None
+  | S f' =>
+      if decide (len = 0) then          (* subtree disjoint from the range: one proof digest *)
+        match proof with d :: p => Some (d, rs, p) | [] => None end
+      else if decide (n ≤ 1) then       (* a leaf inside the range *)
+        match rs with
+        | x :: rs' => if decide (n = 1) then Some (DLeaf x, rs', proof) else None
+        | [] => None
+        end
+      else
+        let k := split_point n in
+        let hi := off + len in
+        match rebuild f' k (off `min` k) (hi `min` k - off `min` k) rs proof with
+        | Some (dl, rs1, p1) =>
+            match rebuild f' (n - k) (off `max` k - k) (hi `max` k - off `max` k) rs1 p1 with
+            | Some (dr, rs2, p2) => Some (DNode dl dr, rs2, p2)
+            | None => None
+            end
+        | None => None
+        end
+  end.
+
+(** the renter's check in RPCSectorRoots (rpc.go:1025): the range is legal, the host returned
+    [len] roots, and leaves plus proof rebuild exactly the committed root *)
+Definition verify_range (root : digest) (n off len : nat) (rs : list N) (proof : list digest) : bool :=
+  bool_decide (0 < len ∧ off + len ≤ n ∧ length rs = len) &&
+  match rebuild n n off len rs proof with
+  | Some (d, [], []) => bool_decide (d = root)
+  | _ => false
+  end.
+
+(** the honest host's proof (server.go:701) *)
+Fixpoint build_range_proof (f : nat) (l : list N) (off len : nat) : list digest :=
+  match f with
+  | 0 => []
+  | S f' =>
+      if decide (len = 0) then [mroot l]
+      else if decide (length l ≤ 1) then []
+      else
+        let k := split_point (length l) in
+        let hi := off + len in
+        build_range_proof f' (take k l) (off `min` k) (hi `min` k - off `min` k) ++
+        build_range_proof f' (drop k l) (off `max` k - k) (hi `max` k - off `max` k)
   end.
 
 (** ** Free sectors: the in-place loop of the host (server.go:301-304)
